@@ -216,16 +216,8 @@ def runBoth (id : String) (names : List String) :
         let diskPart := match st' with
           | .dead _ => "\tout=panic"
           | .up s' => "\tout=" ++ outText o ++ "\ttabs=" ++ tabsText names s'.abs
-        let engTag := match st' with
-          | .up s' => if tabsText names s'.abs != tabsText names ms'.abs then
-              (if names.any (fun n => match s'.abs n, ms'.abs n with
-                  | some (_, a), some (_, b) => a.length == b.length && a != b &&
-                      b.any (fun r => r.contains Val.null)
-                  | _, _ => false) then ["null-in-nonnull-column"] else ["engines-differ"])
-            else []
-          | .dead _ => []
         runBoth id names rest (k + 1) st' ms' sp'
-          ((key ++ diskPart ++ memPart ++ "\ttag=" ++ ",".intercalate (tags ++ engTag)) :: acc)
+          ((key ++ diskPart ++ memPart ++ "\ttag=" ++ ",".intercalate tags) :: acc)
 
 def answerBoth (line : String) : List String :=
   match Sexp.parse line with
